@@ -166,6 +166,41 @@ func snapshotEnv(m map[string]any) []any {
 	return out
 }
 
+// morphInto edits dst in place until it holds what src holds, the way a caller reuses its bindings between renders:
+// a map bound to the same name keeps its identity (emptied and refilled), so does a slice of the same length.
+func morphInto(dst, src map[string]any) {
+	for k := range dst {
+		if _, ok := src[k]; !ok {
+			delete(dst, k)
+		}
+	}
+	for k, v := range src {
+		switch sv := v.(type) {
+		case map[string]any:
+			dm, ok := dst[k].(map[string]any)
+			if !ok {
+				dm = map[string]any{}
+				dst[k] = dm
+			}
+			for kk := range dm {
+				delete(dm, kk)
+			}
+			for kk, vv := range sv {
+				dm[kk] = vv
+			}
+		case []any:
+			ds, ok := dst[k].([]any)
+			if !ok || len(ds) != len(sv) {
+				ds = make([]any, len(sv))
+				dst[k] = ds
+			}
+			copy(ds, sv)
+		default:
+			dst[k] = v
+		}
+	}
+}
+
 // shuffled returns an equal map built in a different insertion order (and rebuilds nested non-string-keyed maps).
 func shuffled(m map[string]any, salt int) map[string]any {
 	m2 := map[string]any{}
@@ -305,6 +340,7 @@ func runSession(c J) J {
 	}
 	ops := jarr(c, "ops")
 	events := make([]any, len(ops))
+	scratch := map[string]any{}
 	runOp := func(i int, snap bool) {
 		op := jobj(ops[i])
 		t, b := jint(op, "t"), jint(op, "b")
@@ -313,13 +349,22 @@ func runSession(c J) J {
 		if jbool(op, "shuffle") {
 			bind = shuffled(bind, i)
 		}
+		if jbool(op, "morph") && envs[b] != nil {
+			// the caller's own bindings object, edited in place since the last render
+			morphInto(scratch, envs[b])
+			bind = scratch
+		}
+		watched := envs[b]
+		if jbool(op, "morph") && envs[b] != nil {
+			watched = scratch
+		}
 		ev := J{"t": t, "b": b, "entry": entry, "i": i}
 		if snap && i%5 == 0 {
 			otherEngineNoise()
 		}
 		if snap {
-			ev["before"] = snapshotEnv(envs[b])
-			ev["beforesig"] = envSig(envs[b])
+			ev["before"] = snapshotEnv(watched)
+			ev["beforesig"] = envSig(watched)
 		}
 		res := guard(func() result {
 			e := eng
@@ -384,8 +429,8 @@ func runSession(c J) J {
 		})
 		res.put(ev)
 		if snap {
-			ev["after"] = snapshotEnv(envs[b])
-			ev["aftersig"] = envSig(envs[b])
+			ev["after"] = snapshotEnv(watched)
+			ev["aftersig"] = envSig(watched)
 		}
 		events[i] = ev
 	}
